@@ -550,7 +550,7 @@ class Unit:
                 fallback_unwind = 6
         has_loops = ((not is_lemma) and (bool(spec.loops) or bool(spec.extra.get("apply_loops")))) or has_inlined_loops
         return dict(unit=self.name, target=key, fname=target, cfile=cfile, harness=hname, enforce=None if is_lemma else target,
-                    replaced=replaced, loops=has_loops, loops_optional=((not is_lemma) and spec.extra.get("apply_loops") == "auto" and not spec.loops and not has_inlined_loops), unwind=(None if is_lemma else (spec.extra.get("unwind") or fallback_unwind)), linemap=linemap, inputs=inputs, spec=spec, is_lemma=is_lemma,
+                    replaced=replaced, loops=has_loops, loops_optional=((not is_lemma) and spec.extra.get("apply_loops") == "auto" and not spec.loops and not has_inlined_loops), unwind=(None if is_lemma else (spec.extra.get("unwind") or fallback_unwind)), fallback_bounded=bool(fallback_unwind), linemap=linemap, inputs=inputs, spec=spec, is_lemma=is_lemma,
                     hstart=hstart, functions=order, text=text, rec=(not is_lemma and spec.rec))
 
     def lemma_harness(self, lem):
